@@ -564,7 +564,7 @@ func main() {
 }
 
 func generate(w *run.W) {
-	nb := w.Pick(1500, 12000)
+	nb := w.Pick(4000, 16000)
 	for b := 0; b < nb; b++ {
 		if !w.Mine(b) {
 			continue
